@@ -185,6 +185,9 @@ func (e *esdtNFTTransfer) processNFTTransferOnSenderShard(
 	if err != nil {
 		return nil, err
 	}
+	if esdtData.TokenMetaData == nil || esdtData.TokenMetaData.Nonce != nonce {
+		return nil, ErrNFTDoesNotHaveMetadata
+	}
 
 	quantityToTransfer := big.NewInt(0).SetBytes(vmInput.Arguments[2])
 	if esdtData.Value.Cmp(quantityToTransfer) < 0 {
